@@ -112,8 +112,8 @@ func ParseDocs(readme string) ([]*DocRoute, error) {
 	return out, nil
 }
 
-var reReg = regexp.MustCompile(`(webHandlerV1|webHandlerV2|csrfHandlerV1)\(\s*"([^"]*)"`)
-var reRegRaw = regexp.MustCompile(`webHandler\(\s*apiVersion[12]\s*,\s*"([^"]*)"`)
+var reReg = regexp.MustCompile(`(webHandlerV1|webHandlerV2|csrfHandlerV1)\(\s*"([^"]*)"\s*,`)
+var reRegRaw = regexp.MustCompile(`webHandler\(\s*apiVersion[12]\s*,\s*"([^"]*)"\s*,`)
 
 // ScanRegistered lists the paths registered in newServerMux by a syntactic scan of http.go
 func ScanRegistered(httpGo string) ([]string, error) {
